@@ -118,6 +118,8 @@ def space(K, p, thorough):
         bases.append(("n3-" + st, b))
     b0 = zero_n(bases[0][1], ["A", "B"]); bases.append(("n0", b0))
     b00 = json.loads(json.dumps(b0)); b00["B"]["lda"] = 0; bases.append(("n0-lda0", b00))
+    # no right-hand side at all (B->ncol = 0 is legal): the tests of B's other fields must not depend on it
+    bz = json.loads(json.dumps(bases[0][1])); bz["B"]["nc"] = 0; bases.append(("n3-nrhs0", bz))
     if thorough:
         b4 = json.loads(json.dumps(bases[0][1])); b4["np"] = 4; bases.append(("n3-np4", b4))
     V = [("np=0", 1, "value", {"np": 0}), ("np=-1", 1, "value", {"np": -1})]
